@@ -377,7 +377,9 @@ def run (proj : Project) (order : List Nat) : St := process proj order (initSt p
 /-! ### post-processing: final bases and MRO -/
 
 /-- `init_finalbaseobjects`: a base that was `None` is looked up again, first under the name it
-expanded to where the class is defined, then by resolving the written name in `cls.parent` -/
+expanded to where the class is defined — with `system.find_object` since 63417ae, which follows the
+alias a re-export move left; `LookupError` (`IndexError` included) gives `None` — then by resolving
+the written name in `cls.parent` -/
 def finalBases (s : St) (c : Nat) : List Nat :=
   match dget s.cinfo c with
   | none => []
@@ -390,7 +392,9 @@ def finalBases (s : St) (c : Nat) : List Nat :=
       match x.2 with
       | some b => some b
       | none =>
-        match cls? (x.1.2.bind (Names.objFor e)) with
+        match cls? (match x.1.2 with
+            | some p => (match Names.findObject e p with | .obj j => some j | _ => none)
+            | none => none) with
         | some b => some b
         | none => cls? (Names.resolveName e ci.scope x.1.1)
 
